@@ -161,6 +161,7 @@ struct Tr<'a> {
     loops: Vec<Vec<String>>, // state variables of the enclosing loops (innermost last)
     defaulted: BTreeSet<String>, // integer locals whose type was not written and defaulted to a machine word
     in_const: bool,          // inside a constant initialiser: evaluated by the compiler, overflow impossible at run time
+    uses_fuel: bool,         // the body contains a `while`: the definition takes a `fuel` argument
 }
 
 fn last_ident(p: &syn::Path) -> String {
@@ -282,6 +283,7 @@ impl<'a> Tr<'a> {
             Expr::Field(f) => {
                 match (self.infer(&f.base), &f.member) {
                     (Ty::Level, _) => Ty::U8,
+                    (Ty::Range, syn::Member::Named(_)) => Ty::Word,
                     (Ty::Rec(n), syn::Member::Named(fd)) => self.file.structs.get(&n).and_then(|fs| fs.iter().find(|x| fd == &x.0).map(|x| x.1.clone())).unwrap_or(Ty::Unknown),
                     _ => Ty::Unknown,
                 }
@@ -331,6 +333,20 @@ impl<'a> Tr<'a> {
                     "char_at" => return Ty::Opt(Box::new(Ty::Unknown)),
                     "bidi_class" if self.infer(&m.receiver) == Ty::Source => return Ty::Class,
                     "len" => return Ty::Word,
+                    "iter" | "into_iter" | "copied" | "cloned" | "clone" | "take" | "skip" => return self.infer(&m.receiver),
+                    "is_empty" => return Ty::Bool,
+                    "get" => {
+                        if let Ty::Slice(t) = self.infer(&m.receiver) {
+                            return Ty::Opt(t);
+                        }
+                    }
+                    "collect" if matches!(strip(&m.receiver), Expr::Range(_)) => return Ty::Slice(Box::new(Ty::Word)),
+                    "fold" if m.args.len() == 2 => return self.infer(&m.args[0]),
+                    "enumerate" => {
+                        if let Ty::Slice(t) = self.infer(&m.receiver) {
+                            return Ty::Slice(Box::new(Ty::Tup(vec![Ty::Word, *t])));
+                        }
+                    }
                     _ => {}
                 }
                 if let Some(fi) = self.file.fns.iter().find(|f| f.has_self && f.key.1 == name) {
@@ -375,6 +391,8 @@ impl<'a> Tr<'a> {
                 }
                 Ty::Unknown
             }
+            Expr::Range(_) => Ty::Range,
+            Expr::Tuple(t) if !t.elems.is_empty() => Ty::Tup(t.elems.iter().map(|e| self.infer(e)).collect()),
             _ => Ty::Unknown,
         }
     }
@@ -446,6 +464,14 @@ impl<'a> Tr<'a> {
                     if self.lookup_local(&n).is_some() {
                         return Ok(coq_ident(&n));
                     }
+                }
+                if let (Ty::Range, syn::Member::Named(fd)) = (self.infer(&f.base), &f.member) {
+                    let base = self.expr(&f.base, b)?;
+                    return match fd.to_string().as_str() {
+                        "start" => Ok(format!("(fst {})", base)),
+                        "end" => Ok(format!("(snd {})", base)),
+                        _ => Err("field of a Range other than start / end".into()),
+                    };
                 }
                 if let (Ty::Rec(sn), syn::Member::Named(fd)) = (self.infer(&f.base), &f.member) {
                     let base = self.expr(&f.base, b)?;
@@ -775,7 +801,7 @@ impl<'a> Tr<'a> {
                 _ => {}
             }
         }
-        if segs.len() == 1 && (n == "max" || n == "min") && c.args.len() == 2 {
+        if (segs.len() == 1 || (segs.len() == 2 && segs[0] == "cmp")) && (n == "max" || n == "min") && c.args.len() == 2 {
             let t = self.num_ty(&c.args[0], &c.args[1]);
             if !t.is_nat() {
                 return Err("max/min on a type other than an unsigned integer or Level".into());
@@ -820,6 +846,9 @@ impl<'a> Tr<'a> {
                 }
             }
         };
+        if coq.ends_with(" fuel") {
+            self.uses_fuel = true;
+        }
         let a = self.args(&c.args, b)?;
         let x = self.fresh("r");
         b.push((x.clone(), format!("{} {}", coq, a.join(" ")).trim_end().to_string()));
@@ -921,6 +950,81 @@ impl<'a> Tr<'a> {
                 return Ok(format!("(rs_{} ts {})", name, l));
             }
             "iter" | "into_iter" | "clone" | "copied" | "cloned" if m.args.is_empty() => return self.expr(&m.receiver, b),
+            "get" if m.args.len() == 1 && matches!(rty, Ty::Slice(_)) => {
+                let l = self.expr(&m.receiver, b)?;
+                let i = self.expr_h(&m.args[0], &Ty::Word, b)?;
+                return Ok(format!("(nth_error {} {})", l, i));
+            }
+            "is_empty" if m.args.is_empty() && matches!(rty, Ty::Slice(_)) => {
+                let l = self.expr(&m.receiver, b)?;
+                return Ok(format!("(Nat.eqb (length {}) 0%nat)", l));
+            }
+            "collect" if m.args.is_empty() && matches!(strip(&m.receiver), Expr::Range(_)) => {
+                // (a..b).collect()
+                if let Expr::Range(r) = strip(&m.receiver) {
+                    if let (Some(st), Some(en), syn::RangeLimits::HalfOpen(_)) = (&r.start, &r.end, &r.limits) {
+                        let from = self.expr_h(st, &Ty::Word, b)?;
+                        let to = self.expr_h(en, &Ty::Word, b)?;
+                        return Ok(format!("(rs_range {} {})", from, to));
+                    }
+                }
+                return Err("collect of a range that is not a..b".into());
+            }
+            "fold" if m.args.len() == 2 && matches!(rty, Ty::Slice(_)) => {
+                // slice.iter().fold(init, |acc, x| pure expression)
+                let elem = match &rty {
+                    Ty::Slice(t) => (**t).clone(),
+                    _ => Ty::Unknown,
+                };
+                let l = self.expr(&m.receiver, b)?;
+                let init = self.expr(&m.args[0], b)?;
+                let init_ty = self.infer(&m.args[0]);
+                if let Expr::Closure(cl) = strip(&m.args[1]) {
+                    if cl.inputs.len() != 2 {
+                        return Err("closure arity".into());
+                    }
+                    let (pa, va) = self.pattern(&cl.inputs[0])?;
+                    let (px, vx) = self.pattern(&cl.inputs[1])?;
+                    let n0 = self.locals.len();
+                    let nva = va.len();
+                    for (k, v) in va.into_iter().enumerate() {
+                        let t = match &init_ty {
+                            Ty::Tup(ts) if ts.len() == nva => ts[k].clone(),
+                            t => t.clone(),
+                        };
+                        self.locals.push((v, t, false));
+                    }
+                    for v in vx {
+                        self.locals.push((v, elem.clone(), false));
+                    }
+                    let mut cb = vec![];
+                    let body_e: &Expr = match strip(&cl.body) {
+                        Expr::Block(bl) if bl.block.stmts.len() == 1 => match &bl.block.stmts[0] {
+                            Stmt::Expr(e, None) => e,
+                            _ => &cl.body,
+                        },
+                        e => e,
+                    };
+                    let body = self.expr(body_e, &mut cb);
+                    self.locals.truncate(n0);
+                    let body = body?;
+                    if !cb.is_empty() {
+                        return Err(format!("fold with a closure that can panic: {:?}", cb));
+                    }
+                    return Ok(format!("(fold_left (fun '{} '{} => {}) {} {})", pa, px, body, l, init));
+                }
+                return Err("fold without a closure literal".into());
+            }
+            // iterator adaptors over a slice (the arguments are evaluated once, when the chain is built)
+            "enumerate" if m.args.is_empty() && matches!(rty, Ty::Slice(_)) => {
+                let l = self.expr(&m.receiver, b)?;
+                return Ok(format!("(rs_enumerate {})", l));
+            }
+            "take" | "skip" if m.args.len() == 1 && matches!(rty, Ty::Slice(_)) => {
+                let l = self.expr(&m.receiver, b)?;
+                let n = self.expr_h(&m.args[0], &Ty::Word, b)?;
+                return Ok(format!("({} {} {})", if name == "take" { "firstn" } else { "skipn" }, n, l));
+            }
             "any" | "all" if m.args.len() == 1 => {
                 let elem = match self.infer(strip_iter(&m.receiver)) {
                     Ty::Slice(t) => *t,
@@ -1425,19 +1529,44 @@ impl<'a> Tr<'a> {
                     },
                 };
                 let (p, vars) = self.pattern(pat)?;
-                for v in vars {
+                // `let mut v = Vec::new();`: the element type is that of the first `v.push(x)` that follows
+                let ty = if ty == Ty::Slice(Box::new(Ty::Unknown)) && vars.len() == 1 {
+                    let mut fp = FirstPush { var: vars[0].clone(), arg: None };
+                    for s in rest {
+                        fp.visit_stmt(s);
+                    }
+                    match fp.arg {
+                        Some(a) => {
+                            self.locals.push((vars[0].clone(), ty.clone(), mutable));
+                            let t = self.infer(&a);
+                            self.locals.pop();
+                            Ty::Slice(Box::new(t))
+                        }
+                        None => ty,
+                    }
+                } else {
+                    ty
+                };
+                let muts = pat_muts(pat);
+                let nv = vars.len();
+                for (k, v) in vars.into_iter().enumerate() {
                     if was_defaulted {
                         self.defaulted.insert(v.clone());
                     } else {
                         self.defaulted.remove(&v);
                     }
-                    self.locals.push((v, ty.clone(), mutable));
+                    let tk = match &ty {
+                        Ty::Tup(ts) if ts.len() == nv && nv > 1 => ts[k].clone(),
+                        t => t.clone(),
+                    };
+                    self.locals.push((v, tk, mutable || muts.get(k).copied().unwrap_or(false)));
                 }
                 let k = self.flow(rest, fin)?;
                 Ok(wrap(&b, &format!("let '{} := {} in {}", p, t, k)))
             }
             Stmt::Macro(m) => self.flow_macro(&m.mac, rest, fin),
             Stmt::Expr(e, _) => self.flow_stmt(e, rest, fin),
+            Stmt::Item(Item::Fn(_)) => self.flow(rest, fin), // a nested function is translated on its own
             _ => Err("unsupported statement".into()),
         }
     }
@@ -1547,6 +1676,23 @@ impl<'a> Tr<'a> {
                         let k = self.flow(rest, fin)?;
                         Ok(wrap(&b, &k))
                     }
+                    _ if matches!(strip(&a.right), Expr::Match(m) if m.arms.iter().any(|arm| matches!(strip(&arm.body), Expr::Return(_) | Expr::Break(_) | Expr::Continue(_)))) => {
+                        // x = match s { P => e, Q => return r };   ==   match s { P => { x = e; } Q => return r }
+                        let m = match strip(&a.right) {
+                            Expr::Match(m) => m.clone(),
+                            _ => unreachable!(),
+                        };
+                        let mut m2 = m.clone();
+                        for arm in m2.arms.iter_mut() {
+                            if !matches!(strip(&arm.body), Expr::Return(_) | Expr::Break(_) | Expr::Continue(_)) {
+                                let asg = Expr::Assign(syn::ExprAssign { attrs: vec![], left: a.left.clone(), eq_token: a.eq_token, right: arm.body.clone() });
+                                let blk = syn::Block { brace_token: Default::default(), stmts: vec![Stmt::Expr(asg, Some(Default::default()))] };
+                                arm.body = Box::new(Expr::Block(syn::ExprBlock { attrs: vec![], label: None, block: blk }));
+                            }
+                        }
+                        let e2 = Expr::Match(m2);
+                        self.flow_stmt(&e2, rest, fin)
+                    }
                     _ => {
                         let v = local_name(&a.left).ok_or("assignment to something other than a local variable")?;
                         if !self.is_mut_local(&v) {
@@ -1628,9 +1774,122 @@ impl<'a> Tr<'a> {
                 let k = self.flow(rest, fin)?;
                 Ok(wrap(&b, &format!("let {} := {} in {}", v, upd, k)))
             }
+            Expr::While(w) if !w.body.stmts.is_empty() => {
+                // `while cond { body }` on explicit fuel (RsPrelude.rs_while): the state is the variables the body assigns
+                if w.label.is_some() {
+                    return Err("labelled loop".into());
+                }
+                let wr = self.writes_block(&w.body.stmts);
+                let (cond, body) = if let Expr::Let(l) = strip(&w.cond) {
+                    // `while let P = e { body }`  ==  `loop { match e { P => body, _ => break } }`
+                    let mut cb = vec![];
+                    let scrut = self.expr(&l.expr, &mut cb)?;
+                    let sty = self.infer(&l.expr);
+                    let (p, vars) = self.pattern(&l.pat)?;
+                    let n0 = self.locals.len();
+                    let inner = match &sty {
+                        Ty::Opt(t) => (**t).clone(),
+                        _ => Ty::Unknown,
+                    };
+                    for v in vars {
+                        self.locals.push((v, inner.clone(), false));
+                    }
+                    self.loops.push(wr.clone());
+                    let body = self.flow_block(&w.body, &wr);
+                    self.loops.pop();
+                    self.locals.truncate(n0);
+                    let body = body?;
+                    ("Ok true".to_string(), wrap(&cb, &format!("match {} with | {} => {} | _ => Ok (Brk {}) end", scrut, p, body, self.tuple(&wr))))
+                } else {
+                    let mut cb = vec![];
+                    let c = self.expr(&w.cond, &mut cb)?;
+                    let cond = wrap(&cb, &format!("Ok {}", paren(&c)));
+                    self.loops.push(wr.clone());
+                    let body = self.flow_block(&w.body, &wr);
+                    self.loops.pop();
+                    (cond, body?)
+                };
+                self.uses_fuel = true;
+                let k = self.flow(rest, fin)?;
+                let vars_t = if wr.is_empty() { "_".to_string() } else { format!("({})", wr.iter().map(|v| coq_ident(v)).collect::<Vec<_>>().join(", ")) };
+                let st_ty = if wr.is_empty() {
+                    "unit".to_string()
+                } else {
+                    wr.iter().map(|v| ty_coq(&self.lookup_local(v).unwrap_or(Ty::Unknown))).collect::<Vec<_>>().join(" * ")
+                };
+                let st_pat = if wr.is_empty() { "(_ : unit)".to_string() } else { format!("'({} : {})", vars_t, st_ty) };
+                Ok(format!(
+                    "f <- rs_while fuel (fun {} => {}) (fun {} => {}) {} ;; match f with Go {} => {} | Ret r => Ok (Ret r) | _ => Panic site_flow end",
+                    st_pat,
+                    cond,
+                    st_pat,
+                    body,
+                    self.tuple(&wr),
+                    vars_t,
+                    k
+                ))
+            }
+            Expr::Loop(lp) => {
+                // `loop { body }`  ==  `while true { body }`
+                if lp.label.is_some() {
+                    return Err("labelled loop".into());
+                }
+                let wr = self.writes_block(&lp.body.stmts);
+                self.loops.push(wr.clone());
+                let body = self.flow_block(&lp.body, &wr);
+                self.loops.pop();
+                let body = body?;
+                self.uses_fuel = true;
+                let k = self.flow(rest, fin)?;
+                let vars_t = if wr.is_empty() { "_".to_string() } else { format!("({})", wr.iter().map(|v| coq_ident(v)).collect::<Vec<_>>().join(", ")) };
+                let st_ty = if wr.is_empty() {
+                    "unit".to_string()
+                } else {
+                    wr.iter().map(|v| ty_coq(&self.lookup_local(v).unwrap_or(Ty::Unknown))).collect::<Vec<_>>().join(" * ")
+                };
+                let st_pat = if wr.is_empty() { "(_ : unit)".to_string() } else { format!("'({} : {})", vars_t, st_ty) };
+                Ok(format!(
+                    "f <- rs_while fuel (fun {} => Ok true) (fun {} => {}) {} ;; match f with Go {} => {} | Ret r => Ok (Ret r) | _ => Panic site_flow end",
+                    st_pat,
+                    st_pat,
+                    body,
+                    self.tuple(&wr),
+                    vars_t,
+                    k
+                ))
+            }
+            Expr::MethodCall(m) if m.method == "reverse" && m.args.is_empty() && matches!(strip(&m.receiver), Expr::Index(ix) if self.infer(&ix.index) == Ty::Range) => {
+                // v[a..b].reverse();
+                let ix = match strip(&m.receiver) {
+                    Expr::Index(ix) => ix,
+                    _ => unreachable!(),
+                };
+                let v = local_name(&ix.expr).ok_or("reverse of a range of a non-variable")?;
+                if !self.is_mut_local(&v) {
+                    return Err("reverse of a range of an immutable variable".into());
+                }
+                let mut b = vec![];
+                let (from, to) = match strip(&ix.index) {
+                    Expr::Range(r) if matches!(r.limits, syn::RangeLimits::HalfOpen(_)) && r.start.is_some() && r.end.is_some() => {
+                        let from = self.expr_h(r.start.as_ref().unwrap(), &Ty::Word, &mut b)?;
+                        let to = self.expr_h(r.end.as_ref().unwrap(), &Ty::Word, &mut b)?;
+                        (from, to)
+                    }
+                    Expr::Range(_) => return Err("reverse of a range that is not a..b".into()),
+                    e => {
+                        // a Range<usize> value
+                        let r = self.expr(e, &mut b)?;
+                        (format!("(fst {})", r), format!("(snd {})", r))
+                    }
+                };
+                let cv = coq_ident(&v);
+                b.push((cv.clone(), format!("rs_reverse_range {} {} {}", cv, from, to)));
+                let k = self.flow(rest, fin)?;
+                Ok(wrap(&b, &k))
+            }
             Expr::While(w) => {
                 // `while !matches!(v.pop(), PAT) {}`: pop until a popped value matches PAT (or the vector is empty)
-                let err = "only the idiom `while !matches!(v.pop(), PAT) {}` is supported";
+                let err = "only the idiom `while !matches!(v.pop(), PAT) {}` is supported for a while loop with an empty body";
                 if !w.body.stmts.is_empty() || w.label.is_some() {
                     return Err(err.into());
                 }
@@ -1862,14 +2121,18 @@ impl<'a> Tr<'a> {
             }
             _ => self.expr(&fl.expr, &mut b)?,
         };
-        let elem = match self.infer(strip_iter(&fl.expr)) {
+        let elem = match self.infer(&fl.expr) {
             Ty::Slice(t) => *t,
-            _ => Ty::Unknown,
+            _ => match self.infer(strip_iter(&fl.expr)) {
+                Ty::Slice(t) => *t,
+                _ => Ty::Unknown,
+            },
         };
         let w = self.writes_block(&fl.body.stmts);
         let (p, vars) = self.pattern(&fl.pat)?;
         let n0 = self.locals.len();
         let is_indices = matches!(strip(&fl.expr), Expr::MethodCall(m) if m.method == "char_indices");
+        let nvars = vars.len();
         for (k, v) in vars.into_iter().enumerate() {
             let t = if is_indices {
                 if k == 0 {
@@ -1877,6 +2140,8 @@ impl<'a> Tr<'a> {
                 } else {
                     Ty::Char
                 }
+            } else if let (Ty::Tup(ts), true) = (&elem, matches!(&elem, Ty::Tup(ts) if ts.len() == nvars)) {
+                ts[k].clone()
             } else if elem != Ty::Unknown {
                 elem.clone()
             } else if matches!(strip(&fl.expr), Expr::MethodCall(m) if m.method == "chars") {
@@ -2054,6 +2319,13 @@ impl<'ast> Visit<'ast> for Writes {
                 self.set.insert(v);
             }
         }
+        if m.method == "reverse" {
+            if let Expr::Index(ix) = strip(&m.receiver) {
+                if let Some(v) = local_name(&ix.expr) {
+                    self.set.insert(v);
+                }
+            }
+        }
         if matches!(m.method.to_string().as_str(), "raise" | "raise_explicit" | "lower") {
             match strip(&m.receiver) {
                 Expr::Index(ix) => {
@@ -2098,6 +2370,20 @@ impl<'ast> Visit<'ast> for Writes {
             }
         }
         syn::visit::visit_expr_for_loop(self, fl);
+    }
+}
+
+/// the argument of the first `var.push(x)`
+struct FirstPush {
+    var: String,
+    arg: Option<Expr>,
+}
+impl<'ast> Visit<'ast> for FirstPush {
+    fn visit_expr_method_call(&mut self, m: &'ast syn::ExprMethodCall) {
+        if self.arg.is_none() && m.method == "push" && m.args.len() == 1 && local_name(&m.receiver).as_deref() == Some(self.var.as_str()) {
+            self.arg = Some(m.args[0].clone());
+        }
+        syn::visit::visit_expr_method_call(self, m);
     }
 }
 
@@ -2166,6 +2452,19 @@ impl syn::parse::Parse for AssertArgs {
             }
         }
         Ok(AssertArgs { a, b })
+    }
+}
+
+/// `mut` markers of the binders of [p], in binding order
+fn pat_muts(p: &Pat) -> Vec<bool> {
+    match p {
+        Pat::Ident(i) => vec![i.mutability.is_some()],
+        Pat::Tuple(t) => t.elems.iter().flat_map(pat_muts).collect(),
+        Pat::Reference(r) => pat_muts(&r.pat),
+        Pat::Paren(r) => pat_muts(&r.pat),
+        Pat::Type(t) => pat_muts(&t.pat),
+        Pat::TupleStruct(ts) => ts.elems.iter().flat_map(pat_muts).collect(),
+        _ => vec![],
     }
 }
 
@@ -2304,6 +2603,13 @@ fn collect(repo: &Path, rel: &str) -> R<FileCtx> {
             }
             Item::Fn(fun) => {
                 let name = fun.sig.ident.to_string();
+                // functions declared inside the body are functions of the file
+                for st in &fun.block.stmts {
+                    if let Stmt::Item(Item::Fn(inner)) = st {
+                        let iname = inner.sig.ident.to_string();
+                        ctx.fns.push(fn_info(&stem, None, Ty::Other, &iname, &inner.sig, &inner.block));
+                    }
+                }
                 ctx.fns.push(fn_info(&stem, None, Ty::Other, &name, &fun.sig, &fun.block));
             }
             Item::Impl(im) => {
@@ -2355,6 +2661,7 @@ fn fn_info(stem: &str, label: Option<&str>, self_ty: Ty, name: &str, sig: &syn::
     let mut has_self = false;
     let mut mut_self = false;
     let mut params = vec![];
+    let mut by_value_mut: Vec<syn::Ident> = vec![];
     for a in &sig.inputs {
         match a {
             FnArg::Receiver(r) => {
@@ -2381,6 +2688,11 @@ fn fn_info(stem: &str, label: Option<&str>, self_ty: Ty, name: &str, sig: &syn::
                     f.0
                 };
                 let is_mut_ref = matches!(&*t.ty, Type::Reference(r) if r.mutability.is_some()) || holds_mut_refs;
+                if let Pat::Ident(i) = &*t.pat {
+                    if i.mutability.is_some() && !is_mut_ref {
+                        by_value_mut.push(i.ident.clone());
+                    }
+                }
                 params.push((n, ty_of_type(&t.ty, &sig.generics), is_mut_ref));
             }
         }
@@ -2393,7 +2705,13 @@ fn fn_info(stem: &str, label: Option<&str>, self_ty: Ty, name: &str, sig: &syn::
         Some(l) => (format!("src_{}_{}_{}", stem, l, name), format!("{}::{}::{}", stem, l, name)),
         None => (format!("src_{}_{}", stem, name), format!("{}::{}", stem, name)),
     };
-    FnInfo { key: (label.map(|s| s.to_string()), name.to_string()), coq, rust, has_self, self_ty, mut_self, params, ret, item: block.clone() }
+    // `mut x: T` by value is a local variable initialised with the argument: `let mut x = x;`
+    let mut block = block.clone();
+    for id in by_value_mut.iter().rev() {
+        let st: Stmt = syn::parse_quote! { let mut #id = #id; };
+        block.stmts.insert(0, st);
+    }
+    FnInfo { key: (label.map(|s| s.to_string()), name.to_string()), coq, rust, has_self, self_ty, mut_self, params, ret, item: block }
 }
 
 pub const FILES: [&str; 7] = ["src/level.rs", "src/char_data/mod.rs", "src/prepare.rs", "src/implicit.rs", "src/lib.rs", "src/utf16.rs", "src/explicit.rs"];
@@ -2440,6 +2758,8 @@ pub const FUNCS: &[(&str, &str, &str)] = &[
     ("utf16", "DoubleEndedIterator_for_Utf16CharIter", "next_back"),
     ("explicit", "", "compute"),
     ("lib", "", "compute_initial_info"),
+    ("lib", "", "visual_runs_for_line"),
+    ("lib", "", "reorder_visual"),
 ];
 
 pub fn translate_all(repo: &Path, report: &mut Report) -> String {
@@ -2517,7 +2837,7 @@ pub fn translate_all(repo: &Path, report: &mut Report) -> String {
                     }
                     match translate_fn(&ctx, &hdone, &all_done, f) {
                         Ok(def) => {
-                            hdone.insert(f.key.clone(), f.coq.clone());
+                            hdone.insert(f.key.clone(), callee_name(&f.coq, &def));
                             helper_defs.insert(f.key.clone(), def);
                             progress = true;
                         }
@@ -2543,7 +2863,7 @@ pub fn translate_all(repo: &Path, report: &mut Report) -> String {
                 let mut with_helpers = done.clone();
                 for (k, _) in &helper_defs {
                     let h = ctx.fns.iter().find(|x| &x.key == k).unwrap();
-                    with_helpers.entry(k.clone()).or_insert(h.coq.clone());
+                    with_helpers.entry(k.clone()).or_insert(callee_name(&h.coq, &helper_defs[k]));
                 }
                 match translate_fn(&ctx, &with_helpers, &all_done, f) {
                     Ok(def) => {
@@ -2563,13 +2883,13 @@ pub fn translate_all(repo: &Path, report: &mut Report) -> String {
                         for k in order.iter().rev() {
                             let h = ctx.fns.iter().find(|x| &x.key == k).unwrap();
                             out.push_str(&helper_defs[k]);
-                            done.insert(k.clone(), h.coq.clone());
-                            all_done.insert((ctx.stem.clone(), k.0.clone(), k.1.clone()), (h.coq.clone(), h.ret.clone()));
+                            done.insert(k.clone(), callee_name(&h.coq, &helper_defs[k]));
+                            all_done.insert((ctx.stem.clone(), k.0.clone(), k.1.clone()), (callee_name(&h.coq, &helper_defs[k]), h.ret.clone()));
                             report.translated.push((h.rust.clone(), h.coq.clone()));
                         }
                         out.push_str(&def);
-                        done.insert(f.key.clone(), f.coq.clone());
-                        all_done.insert((ctx.stem.clone(), f.key.0.clone(), f.key.1.clone()), (f.coq.clone(), f.ret.clone()));
+                        done.insert(f.key.clone(), callee_name(&f.coq, &def));
+                        all_done.insert((ctx.stem.clone(), f.key.0.clone(), f.key.1.clone()), (callee_name(&f.coq, &def), f.ret.clone()));
                         report.translated.push((f.rust.clone(), f.coq.clone()));
                         progress = true;
                     }
@@ -2589,6 +2909,15 @@ pub fn translate_all(repo: &Path, report: &mut Report) -> String {
         }
     }
     out
+}
+
+/// how a translated function is called: a definition that runs `while` loops takes the fuel first
+fn callee_name(coq: &str, def: &str) -> String {
+    if def.contains(&format!("Definition {} (fuel : nat)", coq)) || def.contains(&format!("Definition {} (ts : rs_text_source) (fuel : nat)", coq)) {
+        format!("{} fuel", coq)
+    } else {
+        coq.to_string()
+    }
 }
 
 fn helper_candidate(f: &FnInfo) -> bool {
@@ -2643,6 +2972,7 @@ fn translate_fn(
         loops: vec![],
         defaulted: BTreeSet::new(),
         in_const: false,
+        uses_fuel: false,
     };
     let mut nf = NeedsFlow { yes: f.params.iter().any(|p| p.2) };
     nf.visit_block(&f.item);
@@ -2672,6 +3002,9 @@ fn translate_fn(
     if generic_text {
         ps.push_str(" (ts : rs_text_source)");
     }
+    if tr.uses_fuel {
+        ps.push_str(" (fuel : nat)");
+    }
     if f.has_self && !is_struct {
         ps.push_str(&format!(" (self_ : {})", ty_coq(&f.self_ty)));
     }
@@ -2683,6 +3016,7 @@ fn translate_fn(
             Ty::Class => "bclass".to_string(),
             Ty::Text => "list N".to_string(),
             Ty::Source => "rs_data_source".to_string(),
+            Ty::Range => "(nat * nat)".to_string(),
             Ty::Slice(e) => match **e {
                 Ty::Level | Ty::U8 | Ty::Word => "list nat".to_string(),
                 Ty::Class => "list bclass".to_string(),
